@@ -627,12 +627,14 @@ func (v *Verifier) doAppend(s *State, dst, src *Value, pos token.Pos) *Value {
 		_ = ki
 		na := Fresh("app!"+hk.name, inner)
 		j := BoundVar("j!app", SInt)
-		// in-place case: na agrees with oldDst outside [off+len, off+len+k), and equals src inside
+		// contents of the result window, stated over the absolute index a = rOff + j so that the pattern select(na, a)
+		// is free of arithmetic and conditionals
 		base := rOff
-		elemAt := Select(na, Elt(base, j))
-		fromDst := Select(oldDst, Elt(dst.sOff(), j))
-		fromSrc := Select(srcArr, Elt(srcOff, Sub(j, dst.sLen())))
-		body := Implies(And(Le(Int(0), j), Lt(j, newLen)), Eq(elemAt, Ite(Lt(j, dst.sLen()), fromDst, fromSrc)))
+		rel := Sub(j, base)
+		elemAt := Select(na, j)
+		fromDst := Select(oldDst, Add(dst.sOff(), rel))
+		fromSrc := Select(srcArr, Add(srcOff, Sub(rel, dst.sLen())))
+		body := Implies(And(Le(base, j), Lt(j, Add(base, newLen))), Eq(elemAt, Ite(Lt(rel, dst.sLen()), fromDst, fromSrc)))
 		s.assume(Forall([]*Term{j}, body, []*Term{elemAt}))
 		// frame for in-place: indices outside the appended window keep old contents
 		i2 := BoundVar("i!app", SInt)
